@@ -7,6 +7,7 @@ batch of paths the single query
 
 unsat = for every explored shape and all leaf values the two renderings denote the same value.
 """
+import re
 import time
 
 import z3
@@ -59,7 +60,7 @@ def eval_names(n):
     if isinstance(n, S.Var):
         return {n.name}
     if isinstance(n, S.Leaf):
-        return set() if n.name in ('c', 'd') else {n.name}
+        return set() if n.name in ('c', 'd') else {n.name[-1]}
     out = set()
     for i, o in enumerate(n.ops):
         if n.kind in ('SUM', 'SCAN', 'AGGF', 'SCANF') and i == 0:
@@ -205,7 +206,7 @@ def run_shard(family, n, shadow, pins, batch=300, timeout_ms=120000, max_cex=12)
     cvars = [z3.Int(f'c{i}') for i in range(len(pins))]
     ex = shapex.ShapeExplorer(constraints=[cvars[i] == pins[i] for i in range(len(pins))], max_paths=10 ** 8,
                               max_decisions=400)
-    stats = {'paths': 0, 'dead': 0, 'identical_text': 0, 'with_lets': 0, 'syntactic_ok': 0, 'shared': 0, 'known_class_paths': 0}
+    stats = {'paths': 0, 'dead': 0, 'identical_text': 0, 'with_lets': 0, 'with_agg_lets': 0, 'with_scan_lets': 0, 'syntactic_ok': 0, 'shared': 0, 'known_class_paths': 0}
     res = {'queries': 0, 'unknown': 0, 'reach': 0, 'cex': [], 'solve_s': 0.0, 'samples': [], 'let_samples': []}
     solver = z3.Solver()
     solver.set('timeout', timeout_ms)
@@ -233,6 +234,8 @@ def run_shard(family, n, shadow, pins, batch=300, timeout_ms=120000, max_cex=12)
         r['cls'] = known_class(root)
         stats['paths'] += 1
         stats['with_lets'] += 1 if r['lets'] else 0
+        stats['with_agg_lets'] += 1 if re.search(r'AggLet __cse_\d+ False', r['cse']) else 0
+        stats['with_scan_lets'] += 1 if re.search(r'AggLet __cse_\d+ True', r['cse']) else 0
         stats['identical_text'] += 1 if r['kind'] == 'identical' else 0
         stats['syntactic_ok'] += 1 if r.get('syntactic') else 0
         stats['shared'] += 1 if S.shared_count(root) else 0
